@@ -16,7 +16,7 @@
 
     Equality is over the reals: "up to floating-point summation order". *)
 From Coq Require Import Reals List Bool NArith Permutation.
-From Cfr.theories Require Import Num RInst Tree Strat Eval Solve Incr VanillaMulti ParallelProofs.
+From Cfr.theories Require Import Num RInst Tree GameWF Strat Eval Solve Incr VanillaMulti ParallelProofs SolveApi.
 Import ListNotations.
 
 (** 1. the traversal is a pure function of the strategies plus a list of atomic increments *)
@@ -83,6 +83,16 @@ Theorem C06_full_multi_eq_single :
     @solve_single RNum g Full draw p budget stop.
 Proof. intros g draw p budget stop target scheds H. exact (solve_multi_eq_single g false draw p budget stop target scheds H). Qed.
 
+(** 7. the same at the level of [Game::solve]'s dispatch: the thread count is purely a
+       performance setting (all three methods; the sampled ones under a fixed oracle) *)
+Theorem C06_thread_count_is_a_performance_setting :
+  forall (g : @game RNum) m draw p budget stop num_threads par s,
+    WFgame g -> schedules_ok s ->
+    solve_api g m draw p budget stop num_threads par s <> ApiThreadOverflow ->
+    solve_api g m draw p budget stop num_threads par s =
+    ApiOk (@solve_single RNum g m draw p budget stop).
+Proof. exact solve_api_thread_independent. Qed.
+
 (** the workspace never leaks from one iteration to the next in the model: [multi_iter]
     starts every iteration from the root (the repaired behaviour, D1) *)
 
@@ -106,5 +116,6 @@ Print Assumptions C06_cut_lemma.
 Print Assumptions C06_frontier_ok.
 Print Assumptions C06_iteration.
 Print Assumptions C06_full_multi_eq_single.
+Print Assumptions C06_thread_count_is_a_performance_setting.
 Print Assumptions C06_example_two_tasks.
 Print Assumptions C06_example_reverse_schedule.
